@@ -55,6 +55,7 @@ fn main() {
         "caches" => drive_caches(&mut cx, &hist, dim),
         "queries" => drive_queries(&mut cx),
         "serde" => drive_serde(&mut cx),
+        "toroidal" => drive_toroidal(&mut cx),
         "predicates" => vharness::pure::drive_predicates(&mut cx),
         "orderings" => vharness::pure::drive_orderings(&mut cx),
         "measures" => vharness::pure::drive_measures(&mut cx, &hist),
